@@ -3,7 +3,8 @@
 sandbox) into /verif/replays/regress/<property>/ : at most 3 per (sub-check family, signature).
 Every quick and thorough run replays them first (seconds); on the unchanged tree they all pass."""
 import glob, json, os, re, collections
-src = '/tmp/sb/verif/out/violations'
+import sys
+src = sys.argv[1] if len(sys.argv) > 1 else '/tmp/sb/verif/out/violations'
 dst = '/verif/replays/regress'
 seen = collections.Counter()
 n = 0
